@@ -50,6 +50,12 @@ type Storage struct {
 	// Key is StorageKey{contract_address, contract_name} and value is contract composite value.
 	contractUpdates *orderedmap.OrderedMap[interpreter.StorageKey, *interpreter.CompositeValue]
 
+	// supersededContractValues are contract values which were recorded during this execution,
+	// but got replaced by a later record for the same contract (e.g. a contract which is added
+	// and then removed in the same transaction). They are never written to a storage map,
+	// so their slabs must be removed when the contract updates are committed.
+	supersededContractValues []*interpreter.CompositeValue
+
 	Ledger atree.Ledger
 
 	memoryGauge common.MemoryGauge
@@ -184,6 +190,14 @@ func (s *Storage) recordContractUpdate(
 	if s.contractUpdates == nil {
 		s.contractUpdates = &orderedmap.OrderedMap[interpreter.StorageKey, *interpreter.CompositeValue]{}
 	}
+
+	// A value recorded earlier for the same contract will not be written anymore.
+	// Remember it, so its slabs get removed on commit.
+	previousValue, ok := s.contractUpdates.Get(key)
+	if ok && previousValue != nil && previousValue != contractValue {
+		s.supersededContractValues = append(s.supersededContractValues, previousValue)
+	}
+
 	s.contractUpdates.Set(key, contractValue)
 }
 
@@ -217,6 +231,18 @@ func (s *Storage) commitContractUpdates(context interpreter.ValueTransferContext
 	if s.contractUpdates == nil {
 		return
 	}
+
+	// Remove the contract values which were recorded, but replaced before being written.
+	// They are standalone: no storage map refers to them.
+	for _, supersededValue := range s.supersededContractValues {
+		slabID := supersededValue.SlabID()
+		supersededValue.DeepRemove(context, true)
+		err := s.Remove(slabID)
+		if err != nil {
+			panic(errors.NewExternalError(err))
+		}
+	}
+	s.supersededContractValues = nil
 
 	for pair := s.contractUpdates.Oldest(); pair != nil; pair = pair.Next() {
 		s.writeContractUpdate(context, pair.Key, pair.Value)
